@@ -928,7 +928,7 @@ Theorem status_numbering : forall p l,
 Proof.
   intros p l H.
   assert (E : status_values p l = (p ++ bs "UNSPECIFIED", 0) :: number_from 1 p l).
-  { destruct l as [|s r]; [reflexivity|]. cbn [status_values]. now rewrite H. }
+  { destruct l as [|s r]; [reflexivity|]. unfold status_values. cbn [status_values_n]. now rewrite H. }
   split; [exact E|]. intros k Hk. rewrite E. cbn [nth_error].
   rewrite number_from_nth by assumption. f_equal. f_equal. lia.
 Qed.
@@ -974,7 +974,7 @@ Proof. induction l as [|s l IH]; intros i p; [reflexivity|]. cbn. now rewrite IH
 (* ... hence every default filter IS the name of a value of the status enum *)
 Theorem default_filters_are_enum_values : forall e fl f,
   default_filters e (requested_filters e) = Some fl -> In f fl ->
-  In f (map fst (status_values (status_prefix e) (e_status e))).
+  In f (map fst (entity_status_values e)).
 Proof.
   intros e fl f H Hf. destruct (default_filters_spec e _ fl H) as [HF ->].
   apply in_map_iff in Hf. destruct Hf as [s [<- Hs]].
@@ -982,8 +982,8 @@ Proof.
   apply existsb_exists in HF. destruct HF as [s' [Hin Heq]]. apply bytes_eqb_eq in Heq. subst s'.
   assert (G : In (status_value_name (status_prefix e) s)
                  (map (status_value_name (status_prefix e)) (e_status e))) by (now apply in_map).
-  destruct (e_status e) as [|s0 r] eqn:Es; [destruct Hin|].
-  cbn [status_values]. destruct (has_suffix (bs "UNSPECIFIED") s0).
+  unfold entity_status_values. destruct (e_status e) as [|s0 r] eqn:Es; [destruct Hin|].
+  cbn [status_values_n]. destruct (has_suffix (bs "UNSPECIFIED") s0 && (first_status_number e =? 0)).
   - cbn [map fst]. rewrite number_from_names. exact G.
   - cbn [map fst]. right. rewrite number_from_names. exact G.
 Qed.
